@@ -1,0 +1,51 @@
+//go:build verif
+
+package chans
+
+// Contracts for the deductive verifier in /verif (property C12, single-goroutine code paths under
+// the sequential channel view of DESIGN.md 3.3). Only part of the build under the tag `verif`.
+//
+// An input channel c delivers chseq(c)[0..chn(c)) and is then seen closed; chpos(c) is the receive
+// cursor. Sends append to chsent(out)[..chns(out)). The ghost sequences src/idx tag every element
+// sent to out with the input it came from and its position there; w0/w1/w2 are the inverse maps.
+// Together they say: the output is an interleaving of the consumed prefixes of the inputs - nothing
+// lost, duplicated or invented, each input's order preserved.
+
+//@ pred tagged(out, lo, hi, src, idx, k, in, w) = forall j int {src[j]} :: lo <= j && j < hi && src[j] == k ==>
+//@      0 <= idx[j] && idx[j] < chpos(in) && chsent(out)[j] == chseq(in)[idx[j]] && w[idx[j]] == j
+//@ pred covered(out, lo, src, idx, k, in, p0, w) = forall i int {w[i]} :: p0 <= i && i < chpos(in) ==>
+//@      lo <= w[i] && w[i] < chns(out) && src[w[i]] == k && idx[w[i]] == i
+//@ pred ordered(in, p0, w) = forall i1 int, i2 int {w[i1], w[i2]} :: p0 <= i1 && i1 < i2 && i2 < chpos(in) ==> w[i1] < w[i2]
+//@ pred consumed(c) = chpos(c) == chn(c) && chclosed(c)
+//@ pred inOK(c) = c != nil && 0 <= chpos(c) && chpos(c) <= chn(c)
+
+//@ func merge2
+//@   props C12
+//@   requires out != nil && inOK(in0) && inOK(in1) && in0 != in1 && out != in0 && out != in1 && !chclosed(out)
+//@   modifies chpos(in0), chpos(in1), chsent(out), chns(out)
+//@   ghostinit src := lambda j int :: -1
+//@   ghostinit idx := lambda j int :: 0
+//@   ghostinit w0 := lambda j int :: 0
+//@   ghostinit w1 := lambda j int :: 0
+//@   after call send[0]: ghost src := store(src, chns(out) - 1, 0)
+//@   after call send[0]: ghost idx := store(idx, chns(out) - 1, chpos(old(in0)) - 1)
+//@   after call send[0]: ghost w0 := store(w0, chpos(old(in0)) - 1, chns(out) - 1)
+//@   after call send[1]: ghost src := store(src, chns(out) - 1, 1)
+//@   after call send[1]: ghost idx := store(idx, chns(out) - 1, chpos(old(in1)) - 1)
+//@   after call send[1]: ghost w1 := store(w1, chpos(old(in1)) - 1, chns(out) - 1)
+//@   loop 0: invariant nDone == (in0 == nil ? 1 : 0) + (in1 == nil ? 1 : 0) && nDone < 2 && !chclosed(out)
+//@   loop 0: invariant (in0 == nil ==> consumed(old(in0))) && (in0 != nil ==> in0 == old(in0)) && inOK(old(in0)) && old(chpos(in0)) <= chpos(old(in0))
+//@   loop 0: invariant (in1 == nil ==> consumed(old(in1))) && (in1 != nil ==> in1 == old(in1)) && inOK(old(in1)) && old(chpos(in1)) <= chpos(old(in1))
+//@   loop 0: invariant chns(out) == old(chns(out)) + (chpos(old(in0)) - old(chpos(in0))) + (chpos(old(in1)) - old(chpos(in1)))
+//@   loop 0: invariant forall j int {src[j]} :: old(chns(out)) <= j && j < chns(out) ==> src[j] == 0 || src[j] == 1
+//@   loop 0: invariant tagged(out, old(chns(out)), chns(out), src, idx, 0, old(in0), w0) && tagged(out, old(chns(out)), chns(out), src, idx, 1, old(in1), w1)
+//@   loop 0: invariant covered(out, old(chns(out)), src, idx, 0, old(in0), old(chpos(in0)), w0) && covered(out, old(chns(out)), src, idx, 1, old(in1), old(chpos(in1)), w1)
+//@   loop 0: invariant ordered(old(in0), old(chpos(in0)), w0) && ordered(old(in1), old(chpos(in1)), w1)
+//@   loop 0: invariant forall j int {chsent(out)[j]} :: 0 <= j && j < old(chns(out)) ==> chsent(out)[j] == old(chsent(out))[j]
+//@   ensures consumed(in0) && consumed(in1)
+//@   ensures chns(out) == old(chns(out)) + (chn(in0) - old(chpos(in0))) + (chn(in1) - old(chpos(in1)))
+//@   ensures forall j int {src[j]} :: old(chns(out)) <= j && j < chns(out) ==> src[j] == 0 || src[j] == 1
+//@   ensures tagged(out, old(chns(out)), chns(out), src, idx, 0, in0, w0) && tagged(out, old(chns(out)), chns(out), src, idx, 1, in1, w1)
+//@   ensures covered(out, old(chns(out)), src, idx, 0, in0, old(chpos(in0)), w0) && covered(out, old(chns(out)), src, idx, 1, in1, old(chpos(in1)), w1)
+//@   ensures ordered(in0, old(chpos(in0)), w0) && ordered(in1, old(chpos(in1)), w1)
+//@   ensures forall j int {chsent(out)[j]} :: 0 <= j && j < old(chns(out)) ==> chsent(out)[j] == old(chsent(out))[j]
